@@ -1230,7 +1230,7 @@ pub fn run(a: &Args) -> i32 {
         (3200, 16, 30000)
     };
     let full_shrinks_per_raw = if quick { 2 } else { 5 };
-    let deadline = if quick { 45.0 } else { 470.0 };
+    let deadline = if quick { 38.0 } else { 470.0 };
     // no files under Miri: only the component stage runs there
     let scratch_holder = if miri { None } else { Some(Scratch::new("c16")) };
     let scratch = scratch_holder.as_ref();
